@@ -1,4 +1,5 @@
 """C09 — merged import requirements satisfy every contributor, order-independently."""
+import re
 from cfg import CFG, error_blocks
 from prov import narrow
 from pat import *
@@ -171,6 +172,32 @@ def check_highest(ctx):
            "the higher-version branch renames the import entry but leaves the merged Interface::id at the lower version: an interface that `use`s it and is "
            "encoded first imports it under the stale lower-version name (the shared import is then not named for the highest version, depending on creation order)",
            site=f.span)
+    # … and the loop re-targets the redirects whose *target* (the map's value) is the old name — a comparison of the map's
+    # key (the superseded name) with the old name never matches an existing redirect
+    if ret:
+        from c08 import origin_tuple_field
+        okv = False
+        whyv = "no comparison of a redirect with the old name found in the re-targeting loop"
+        for c in f.calls():
+            if not (c.declared or "").endswith(("PartialEq::eq", "PartialEq::ne")) or not under(c, tt):
+                continue
+            sides = [prov.slice(f, c.args[0]), prov.slice(f, c.args[1])]
+            if not any(sl.has_call("find_semver_compatible_import") for sl in sides):
+                continue
+            for i, sl in enumerate(sides):
+                if sl.has_call("find_semver_compatible_import"):
+                    continue
+                if sl.has_call("values_mut") or sl.has_call("values"):
+                    okv = True
+                elif sl.has_call("iter_mut") or sl.has_call("iter"):
+                    k = origin_tuple_field(prov, f, c.args[i])
+                    if k == "1":
+                        okv = True
+                    else:
+                        whyv = "the re-targeting loop compares the redirect map's *key* (tuple field %s) with the old name, not the redirect target" % k
+        ctx.ob("R09.3", "retarget-compares-target", okv,
+               "redirects are re-targeted when their target equals the old name" if okv else
+               whyv + ": with three versions on a track an earlier redirect keeps pointing at a name that is no longer an import (encode then panics looking it up)", site=f.span)
     ctx.ob("R09.3", "retarget-redirects", bool(ret), "higher version: existing redirects to the old name are re-targeted to the new canonical name" if ret else
            "higher-version branch leaves older redirects pointing at a name that is no longer an import (stale redirect chain)", site=f.span)
 
@@ -242,6 +269,40 @@ def check_used_types(ctx):
     ctx.ob("R09.4", "count", n == 2, "used-type merge functions: %d" % n, nontrivial=False)
 
 
+def import_names_own_side(ctx, rule="R09.1"):
+    """names under which the aggregator records an import on its own initiative (the owning interface of a used resource, …)
+    are read from the aggregator's *unified* types (`self.types`), where a merged interface carries the canonical
+    (highest-version) id — not from the contributor's collection, where the same interface still has the contributor's
+    version: the latter re-introduces a second import on the same semver track, depending on contributor order."""
+    db, prov = ctx.db, ctx.prov
+    n = 0
+    for f in sorted(db.fns.values(), key=lambda x: x.id):
+        if not f.id.startswith(AG) or f.id.startswith(AG + "aggregate") or f.from_expansion:
+            continue
+        for t in f.calls():
+            if not ((t.path or "").endswith(("IndexMap::insert", "IndexMap::entry")) and narrow(prov, f, t.args[0]).has_field("imports", "aggregator::TypeAggregator")):
+                continue
+            n += 1
+            ctx.touch(f)
+            ks = narrow(prov, f, t.args[1])      # the chain of borrows / clones / index / field reads that yields the name itself
+            sides = set()
+            for g, c in ks.calls:
+                if (c.path or "").startswith("wac_types::<component::Types as core::ops::index::Index<"):
+                    gf = g if not isinstance(g, str) else db.fns.get(g)
+                    rs = prov.slice(gf, c.args[0], stop_call=lambda tt: (tt.path or "").endswith("TypeAggregator::types"))
+                    own = rs.has_field("types", "aggregator::TypeAggregator") or rs.has_call("TypeAggregator::types")
+                    foreign = any(db.fns.get(fid) is not None and 0 < i < len(db.fns[fid].locals) and db.fns[fid].locals[i].endswith("component::Types") and db.fns[fid].locals[i].startswith("&")
+                                  for fid, i in rs.params)
+                    sides.add("S" if own and not foreign else "F" if foreign and not own else "?")
+            ok = sides <= {"S"} and bool(sides)
+            ctx.ob(rule, "import-name-own-side|%s" % re.sub(r"(::\{closure#\d+\})+$", "", f.id).rsplit("::", 1)[-1], ok,
+                   "the recorded import name is read from the aggregator's own (unified) types" if ok else
+                   "an import is recorded under a name read from %s: the contributor's version of a merged interface becomes a second import on the same semver track" % (
+                       "the contributor's type collection" if "F" in sides else "an undetermined collection"),
+                   site="%s in %s" % (t.span, f.id))
+    ctx.ob(rule, "import-name-sites", n >= 1, "imports recorded outside aggregate(): %d" % n, nontrivial=False)
+
+
 def merge_totality(ctx, merges, rule="R09.1"):
     """every element of a contributor's exports/imports is either checked against the existing entry or inserted: no
     iteration of a merge loop over a foreign `exports`/`imports` map can come back to the loop head without having passed
@@ -282,6 +343,7 @@ def merge_totality(ctx, merges, rule="R09.1"):
 
 def merge_targets(ctx, merges, rule="R09.1"):
     merge_totality(ctx, merges, rule)
+    import_names_own_side(ctx, rule)
     """the item merged from `types[id].<coll>` is inserted into `self.types[existing].<coll>` — the same collection."""
     db, prov = ctx.db, ctx.prov
     n = 0
